@@ -765,8 +765,9 @@ def roi_from_points(
 
     ny, nx = shape
 
-    _in = np.floor(xy.min(axis=0)).astype("int32") - padding
-    _out = np.ceil(xy.max(axis=0)).astype("int32") + padding
+    # clamp before converting to integers: far away points overflow int32
+    _in = np.clip(np.floor(xy.min(axis=0)), -(2**62), 2**62).astype("int64") - padding
+    _out = np.clip(np.ceil(xy.max(axis=0)), -(2**62), 2**62).astype("int64") + padding
 
     if align is not None:
         _in = align_down(_in, align)
